@@ -150,6 +150,21 @@ Proof. reflexivity. Qed.
 Lemma snext_bool lf f st : snext lf (Datatypes.S f) (SBool st) = wrap SBool (bool_next searcher (snext lf f) (sadv lf f) smin lf st).
 Proof. reflexivity. Qed.
 
+Fixpoint zseq (lo : Z) (cnt : nat) : list Z :=
+  match cnt with O => [] | Datatypes.S k => lo :: zseq (lo + 1) k end.
+
+Lemma zseq_In : forall cnt lo x, In x (zseq lo cnt) <-> lo <= x < lo + Z.of_nat cnt.
+Proof.
+  induction cnt as [| k IH]; intros lo x; simpl; [lia|]. rewrite IH. lia.
+Qed.
+
+Lemma zseq_app : forall a lo b, zseq lo (a + b) = zseq lo a ++ zseq (lo + Z.of_nat a) b.
+Proof.
+  induction a as [| a IH]; intros lo b; simpl.
+  - replace (lo + 0) with lo by lia. reflexivity.
+  - rewrite IH. f_equal. f_equal. f_equal. lia.
+Qed.
+
 Section Assembly.
   Variable sn : snapshot.
   Hypothesis Hwf : wf_sn sn.
@@ -192,14 +207,15 @@ Section Assembly.
      (exists st Ss dmin, s = SDisjS st /\ dsl_inv searcher TInv TFin N Ss dmin st lo /\ (forall x, S x = disj_S Ss dmin x))).
   Definition KFin (s : searcher) (S : Z -> bool) (lo : Z) : Prop := True.
 
+  Variable W : nat.   (* a bound on the number of clauses of a conjunction *)
   Definition fuel_ok (lf : nat) : Prop :=
-    (Z.to_nat N + 2 <= lf)%nat /\ forall len, (len <= 10)%nat -> (conj_fuel N len <= lf)%nat.
+    (Z.to_nat N + 2 <= lf)%nat /\ forall len, (len <= W)%nat -> (conj_fuel N len <= lf)%nat.
 
   Variable lf : nat.
   Hypothesis Hlf : fuel_ok lf.
-  (* conjunctions of up to 10 clauses (the width the fuel hypothesis covers) *)
+  (* conjunctions of up to W clauses (the width the fuel hypothesis covers) *)
   Definition narrow (s : searcher) : Prop :=
-    match s with SConj st => (length (cj_s st) <= 10)%nat | _ => True end.
+    match s with SConj st => (length (cj_s st) <= W)%nat | _ => True end.
 
   Lemma conj_inv_length : forall Ss st lo, conj_inv searcher TInv TFin N Ss st lo -> length (cj_s st) = length Ss.
   Proof.
@@ -260,4 +276,394 @@ Section Assembly.
         split; [destruct Hl as [_ [Hl _]]; lia|]. right. exists st', Ss, dmin. split; [reflexivity|]. split; [left; exact Hinv'|exact HS].
       + destruct Hpost as [Hnn _]. split; [split; [eapply none_from_ext; [intros x; symmetry; apply HS|exact Hnn]|exact I]|exact I].
   Qed.
+
+  Definition K2Inv (s : searcher) (S : Z -> bool) (lo : Z) : Prop := KInv s S lo /\ narrow s.
+
+  Lemma K2_next : forall f, next_exact searcher (snext lf (Datatypes.S (Datatypes.S f))) K2Inv KFin.
+  Proof.
+    intros f s S lo [HK Hn]. destruct (K_next f s S lo HK Hn) as [r [s' [E [Hpost Hn']]]].
+    exists r, s'. split; [exact E|]. destruct r as [m|]; simpl in *.
+    - destruct Hpost as [A B0]. split; [exact A|split; assumption].
+    - exact Hpost.
+  Qed.
+
+  Lemma K2_adv : forall f, adv_exact searcher (sadv lf (Datatypes.S (Datatypes.S f))) K2Inv KFin.
+  Proof.
+    intros f s S lo n [HK Hn] Hle. destruct (K_adv f s S lo n HK Hn Hle) as [r [s' [E [Hpost Hn']]]].
+    exists r, s'. split; [exact E|]. destruct r as [m|]; simpl in *.
+    - destruct Hpost as [A B0]. split; [exact A|split; assumption].
+    - exact Hpost.
+  Qed.
+
+  (* ---------- the root boolean: draining it with Next ---------- *)
+
+  Variable Sm Ss Sn : option (Z -> bool).
+  Variable smin0 : Z.
+  Let BS := bool_S Sm Ss Sn smin0.
+  Hypothesis HBS_bounded : forall x, BS x = true -> 0 <= x < N.
+
+  Definition members (lo : Z) : list Z := filter BS (zseq lo (Z.to_nat (N - lo))).
+
+  Lemma filter_none : forall (l : list Z), (forall x, In x l -> BS x = false) -> filter BS l = [].
+  Proof.
+    induction l as [| a l IH]; intros H; simpl; [reflexivity|].
+    rewrite (H a (or_introl eq_refl)). apply IH. intros x Hx. apply H. right. exact Hx.
+  Qed.
+
+  Lemma members_least : forall lo d, 0 <= lo -> least_from BS lo d -> members lo = d :: members (d + 1).
+  Proof.
+    intros lo d Hlo [A [B0 D]]. pose proof (HBS_bounded d A) as Hd. unfold members.
+    replace (Z.to_nat (N - lo)) with (Z.to_nat (d - lo) + (1 + Z.to_nat (N - (d + 1))))%nat by lia.
+    rewrite zseq_app, filter_app. rewrite filter_none.
+    - simpl. replace (lo + Z.of_nat (Z.to_nat (d - lo))) with d by lia. rewrite A. reflexivity.
+    - intros x Hx. apply zseq_In in Hx. apply D. lia.
+  Qed.
+
+  Lemma members_none : forall lo, none_from BS lo -> members lo = [].
+  Proof.
+    intros lo Hn. unfold members. apply filter_none. intros x Hx. apply zseq_In in Hx. apply Hn. lia.
+  Qed.
+
+  Lemma run_loop_bool : forall cnt f st lo acc,
+    bool_inv searcher smin K2Inv KFin N Sm Ss Sn smin0 st lo -> 0 <= lo -> (Z.to_nat (N - lo) < cnt)%nat ->
+    run_loop lf (Datatypes.S (Datatypes.S (Datatypes.S f))) cnt (SBool st) acc = Ok (rev acc ++ members lo).
+  Proof.
+    induction cnt as [| cnt IH]; intros f st lo acc Hinv Hlo Hcnt; [lia|].
+    cbn [run_loop]. rewrite snext_bool. unfold wrap.
+    destruct (bool_next_spec searcher _ _ smin K2Inv KFin (K2_next f) (K2_adv f)
+                (proj1 (smin_static lf _)) (proj2 (smin_static lf _)) N Sm Ss Sn smin0 lf st lo Hinv Hlo (proj1 Hlf))
+      as [r [st' [E Hpost]]].
+    rewrite E. cbn [rbind fst snd]. destruct r as [rv|]; simpl in Hpost.
+    - destruct Hpost as [Hl Hinv']. pose proof (HBS_bounded _ (proj1 Hl)) as Hb.
+      rewrite (IH f st' (dm_num rv + 1) (dm_num rv :: acc) Hinv'); [|lia|destruct Hl as [_ [Hl _]]; lia].
+      rewrite (members_least lo (dm_num rv) Hlo Hl). simpl. rewrite <- app_assoc. reflexivity.
+    - destruct Hpost as [Hn _]. rewrite (members_none lo Hn), app_nil_r. reflexivity.
+  Qed.
 End Assembly.
+
+(* ================= boolean queries over term clauses ================= *)
+
+Definition tq (ft : Z * list Z) : query := QTerm (fst ft) (snd ft).
+Definition flatq (musts shoulds nots : list (Z * list Z)) (ms : Z) : query :=
+  QBool (map tq musts) (map tq shoulds) (map tq nots) ms.
+
+(* default options with the "conjunction" push-down switched off *)
+Definition copts_plain : copts :=
+  {| co_score_none := false; co_tv := false; co_conj := false; co_conj_un := true; co_disj_un := true |}.
+
+Definition tsearchers (sn : snapshot) (l : list (Z * list Z)) : list searcher :=
+  map (fun ft => term_searcher sn copts_plain (fst ft) (snd ft)) l.
+
+Definition tdenots (sn : snapshot) (l : list (Z * list Z)) : list (Z -> bool) :=
+  map (fun ft => term_S sn (fst ft) (snd ft)) l.
+
+Lemma compile_flat : forall sn musts shoulds nots ms,
+  (length shoulds <= 10)%nat -> (length nots <= 10)%nat -> (musts <> [] \/ shoulds <> []) ->
+  compile sn copts_plain (flatq musts shoulds nots ms) =
+  Ok (mk_bool (match musts with [] => None | _ => Some (mk_conj (tsearchers sn musts)) end)
+              (match shoulds with [] => None | _ => Some (mk_disj_slice (tsearchers sn shoulds) ms) end)
+              (match nots with [] => None | _ => Some (mk_disj_slice (tsearchers sn nots) 1) end)).
+Proof.
+  intros sn musts shoulds nots ms Hs Hn Hne. unfold flatq. cbn [compile].
+  assert (Hcl : forall l,
+    (fix clist (qs : list query) : res (list searcher) :=
+       match qs with
+       | [] => Ok []
+       | q1 :: r => s1 <- compile sn copts_plain q1 ;; ss <- clist r ;; Ok (s1 :: ss)
+       end) (map tq l) = Ok (tsearchers sn l)).
+  { induction l as [| a l IH]; [reflexivity|]. cbn [map]. rewrite IH. reflexivity. }
+  rewrite !Hcl. cbn [rbind].
+  assert (Hdisj : forall l m, (length l <= 10)%nat ->
+            new_disjunction sn copts_plain (tsearchers sn l) m = mk_disj_slice (tsearchers sn l) m).
+  { intros l m Hl. unfold new_disjunction. cbn [co_score_none co_tv co_disj_un copts_plain].
+    rewrite andb_false_r. cbn [andb].
+    assert (E : disjunction_heap_takeover <? Z.of_nat (length (tsearchers sn l)) = false).
+    { apply Z.ltb_ge. unfold tsearchers. rewrite map_length. unfold disjunction_heap_takeover. lia. }
+    rewrite E. reflexivity. }
+  assert (Hconj : forall l, new_conjunction sn copts_plain (tsearchers sn l) = mk_conj (tsearchers sn l)).
+  { intros l. unfold new_conjunction. cbn [co_score_none co_tv co_conj co_conj_un copts_plain].
+    rewrite !andb_false_r. cbn [andb]. reflexivity. }
+  destruct musts as [| m0 mr]; destruct shoulds as [| s0 sr]; destruct nots as [| n0 nr];
+    cbn [map]; try (destruct Hne; congruence);
+    try rewrite Hconj; try rewrite (Hdisj (s0 :: sr)) by exact Hs; try rewrite (Hdisj (n0 :: nr)) by exact Hn;
+    reflexivity.
+Qed.
+
+(* ---------- increasing lists ---------- *)
+
+Fixpoint incr (l : list Z) : Prop :=
+  match l with
+  | a :: ((b :: _) as r) => a < b /\ incr r
+  | _ => True
+  end.
+
+Lemma incr_tail a l : incr (a :: l) -> incr l.
+Proof. destruct l; simpl; tauto. Qed.
+
+Lemma incr_head_min a l : incr (a :: l) -> forall b, In b l -> a < b.
+Proof.
+  revert a. induction l as [| c l IH]; intros a H b Hb; [destruct Hb|].
+  destruct H as [Hac Hs]. destruct Hb as [<-|Hb]; [exact Hac|]. specialize (IH c Hs b Hb). lia.
+Qed.
+
+Lemma incr_cons a l : incr l -> (forall b, In b l -> a < b) -> incr (a :: l).
+Proof. intros H Hm. destruct l as [| b l]; simpl; [exact I|]. split; [apply Hm; left; reflexivity|exact H]. Qed.
+
+Lemma incr_app l1 l2 : incr l1 -> incr l2 -> (forall a b, In a l1 -> In b l2 -> a < b) -> incr (l1 ++ l2).
+Proof.
+  induction l1 as [| a l1 IH]; intros H1 H2 H; simpl; [exact H2|].
+  apply incr_cons.
+  - apply IH; [eapply incr_tail; eauto|exact H2|]. intros x y Hx Hy. apply H; [right; exact Hx|exact Hy].
+  - intros b Hb. apply in_app_or in Hb. destruct Hb as [Hb|Hb].
+    + eapply incr_head_min; eauto.
+    + apply H; [left; reflexivity|exact Hb].
+Qed.
+
+Lemma incr_filter (f : Z -> bool) l : incr l -> incr (filter f l).
+Proof.
+  induction l as [| a l IH]; intros H; simpl; [exact I|].
+  pose proof (incr_tail _ _ H) as Ht. destruct (f a); [|apply IH; exact Ht].
+  apply incr_cons; [apply IH; exact Ht|]. intros b Hb. apply filter_In in Hb. destruct Hb as [Hb _].
+  eapply incr_head_min; eauto.
+Qed.
+
+Lemma incr_ext_eq : forall l1 l2, incr l1 -> incr l2 -> (forall x, In x l1 <-> In x l2) -> l1 = l2.
+Proof.
+  induction l1 as [| a l1 IH]; intros l2 H1 H2 Hext.
+  - destruct l2 as [| b l2]; [reflexivity|]. exfalso. apply (proj2 (Hext b)). left. reflexivity.
+  - destruct l2 as [| b l2]; [exfalso; apply (proj1 (Hext a)); left; reflexivity|].
+    assert (Hab : a = b).
+    { destruct (proj1 (Hext a) (or_introl eq_refl)) as [E|Ha]; [symmetry; exact E|].
+      destruct (proj2 (Hext b) (or_introl eq_refl)) as [E|Hb]; [exact E|].
+      pose proof (incr_head_min _ _ H1 b Hb). pose proof (incr_head_min _ _ H2 a Ha). lia. }
+    subst b. f_equal. apply IH; [eapply incr_tail; eauto|eapply incr_tail; eauto|].
+    intros x. split; intros Hx.
+    + destruct (proj1 (Hext x) (or_intror Hx)) as [E|Hx']; [|exact Hx'].
+      subst x. pose proof (incr_head_min _ _ H1 a Hx). lia.
+    + destruct (proj2 (Hext x) (or_intror Hx)) as [E|Hx']; [|exact Hx'].
+      subst x. pose proof (incr_head_min _ _ H2 a Hx). lia.
+Qed.
+
+Lemma zseq_incr : forall cnt lo, incr (zseq lo cnt).
+Proof.
+  induction cnt as [| k IH]; intros lo; simpl; [exact I|].
+  apply incr_cons; [apply IH|]. intros b Hb. apply zseq_In in Hb. lia.
+Qed.
+
+(* the live documents are numbered increasingly *)
+Lemma nsorted_fst_incr : forall l, nsorted l -> incr (map fst l).
+Proof.
+  induction l as [| a l IH]; intros H; simpl; [exact I|].
+  destruct l as [| b l]; simpl; [exact I|]. destruct H as [Hab Hs]. split; [exact Hab|]. apply IH. exact Hs.
+Qed.
+
+Lemma live_from_incr : forall sn r, incr (map fst (live_from r sn)) /\
+  forall x, In x (map fst (live_from r sn)) -> r <= x < r + total_docs sn.
+Proof.
+  induction sn as [| s rest IH]; intros r; simpl; [split; [exact I|intros x []]|].
+  destruct (IH (r + seg_count s)) as [Hi Hr].
+  assert (Hseg : incr (map fst (map (fun p : Z * doc => (r + fst p, snd p)) (seg_live s))) /\
+                 forall x, In x (map fst (map (fun p : Z * doc => (r + fst p, snd p)) (seg_live s))) -> r <= x < r + seg_count s).
+  { split.
+    - rewrite map_map. simpl.
+      assert (Hs : nsorted (seg_live s)) by (unfold seg_live; apply nsorted_filter; apply number_from_sorted).
+      induction (seg_live s) as [| a l IHl]; simpl; [exact I|].
+      destruct l as [| b l]; simpl; [exact I|]. destruct Hs as [Hab Hs]. split; [lia|]. apply IHl. exact Hs.
+    - intros x Hx. rewrite map_map in Hx. simpl in Hx. apply in_map_iff in Hx. destruct Hx as [[n d] [E Hin]].
+      simpl in E. subst x. apply seg_live_range in Hin. lia. }
+  destruct Hseg as [Hsi Hsr]. rewrite map_app. split.
+  - apply incr_app; [exact Hsi|exact Hi|]. intros a b Ha Hb. apply Hsr in Ha. apply Hr in Hb. lia.
+  - intros x Hx. apply in_app_or in Hx. pose proof (total_docs_nonneg rest). pose proof (seg_count_nonneg s).
+    destruct Hx as [Hx|Hx]; [apply Hsr in Hx; lia|apply Hr in Hx; lia].
+Qed.
+
+Lemma live_docs_incr sn : incr (map fst (live_docs sn)).
+Proof. apply (live_from_incr sn 0). Qed.
+
+Lemma incr_NoDup : forall l, incr l -> NoDup l.
+Proof.
+  induction l as [| a l IH]; intros H; constructor.
+  - intros Hin. pose proof (incr_head_min _ _ H a Hin). lia.
+  - apply IH. eapply incr_tail; eauto.
+Qed.
+
+Lemma live_docs_unique : forall sn x d d', In (x, d) (live_docs sn) -> In (x, d') (live_docs sn) -> d = d'.
+Proof.
+  intros sn x d d' H1 H2. pose proof (incr_NoDup _ (live_docs_incr sn)) as Hnd.
+  induction (live_docs sn) as [| [n e] l IH]; [destruct H1|].
+  simpl in Hnd. inversion Hnd as [| a l' Hnin Hnd']; subst.
+  destruct H1 as [E1|H1]; destruct H2 as [E2|H2].
+  - congruence.
+  - inversion E1; subst. exfalso. apply Hnin. apply in_map_iff. exists (x, d'). split; [reflexivity|exact H2].
+  - inversion E2; subst. exfalso. apply Hnin. apply in_map_iff. exists (x, d). split; [reflexivity|exact H1].
+  - apply IH; assumption.
+Qed.
+
+(* ---------- the denotations on a live document ---------- *)
+
+Lemma term_S_live : forall sn f t x d, In (x, d) (live_docs sn) -> term_S sn f t x = has_term d f t.
+Proof.
+  intros sn f t x d Hin. unfold term_S. destruct (has_term d f t) eqn:E.
+  - apply existsb_exists. exists (x, d). split; [exact Hin|]. simpl. rewrite Z.eqb_refl, E. reflexivity.
+  - apply not_true_is_false. intros H. apply existsb_exists in H. destruct H as [[n e] [Hin' Hp]].
+    simpl in Hp. apply andb_prop in Hp. destruct Hp as [En He]. apply Z.eqb_eq in En. subst n.
+    rewrite (live_docs_unique sn x d e Hin Hin') in E. congruence.
+Qed.
+
+Lemma term_S_not_live : forall sn f t x, (forall d, ~ In (x, d) (live_docs sn)) -> term_S sn f t x = false.
+Proof.
+  intros sn f t x H. apply not_true_is_false. intros Ht. unfold term_S in Ht. apply existsb_exists in Ht.
+  destruct Ht as [[n e] [Hin Hp]]. simpl in Hp. apply andb_prop in Hp. destruct Hp as [En _]. apply Z.eqb_eq in En. subst n.
+  exact (H e Hin).
+Qed.
+
+Definition has_all (d : doc) (l : list (Z * list Z)) : bool := forallb (fun ft => has_term d (fst ft) (snd ft)) l.
+Definition has_count (d : doc) (l : list (Z * list Z)) : Z :=
+  fold_right (fun ft a => (if has_term d (fst ft) (snd ft) then 1 else 0) + a) 0 l.
+Definition has_any (d : doc) (l : list (Z * list Z)) : bool := existsb (fun ft => has_term d (fst ft) (snd ft)) l.
+
+Lemma forallb_tdenots : forall sn l x d, In (x, d) (live_docs sn) ->
+  forallb (fun s : Z -> bool => s x) (tdenots sn l) = has_all d l.
+Proof.
+  intros sn l x d Hin. unfold tdenots, has_all. induction l as [| b l IH]; simpl; [reflexivity|].
+  rewrite (term_S_live sn (fst b) (snd b) x d Hin), IH. reflexivity.
+Qed.
+
+Lemma conj_S_live : forall sn l x d, In (x, d) (live_docs sn) -> l <> [] -> conj_S (tdenots sn l) x = has_all d l.
+Proof.
+  intros sn l x d Hin Hne. unfold conj_S. destruct (tdenots sn l) eqn:E.
+  - destruct l; [congruence|discriminate].
+  - rewrite <- E. apply forallb_tdenots. exact Hin.
+Qed.
+
+Lemma count_true_tdenots : forall sn l x d, In (x, d) (live_docs sn) ->
+  Z.of_nat (count_true (tdenots sn l) x) = has_count d l.
+Proof.
+  intros sn l x d Hin. unfold count_true, tdenots, has_count. induction l as [| b l IH]; simpl; [reflexivity|].
+  rewrite (term_S_live sn (fst b) (snd b) x d Hin). destruct (has_term d (fst b) (snd b)); simpl length; lia.
+Qed.
+
+Lemma has_count_nonneg d l : 0 <= has_count d l.
+Proof. unfold has_count. induction l as [| b l IH]; simpl; [lia|]. destruct (has_term d (fst b) (snd b)); lia. Qed.
+
+Lemma has_any_count d l : has_any d l = (1 <=? has_count d l).
+Proof.
+  unfold has_any, has_count. induction l as [| b l IH]; simpl; [reflexivity|].
+  pose proof (has_count_nonneg d l) as Hn. unfold has_count in Hn.
+  destruct (has_term d (fst b) (snd b)); simpl orb.
+  - symmetry. apply Z.leb_le. lia.
+  - rewrite IH. rewrite Z.add_0_l. reflexivity.
+Qed.
+
+(* the denotation of a boolean query over term clauses, spelled out *)
+Lemma sem_flat : forall m s n ms d,
+  sem (flatq m s n ms) d =
+  has_all d m && negb (has_any d n) &&
+  match m, s with
+  | [], [] => match n with [] => false | _ => true end
+  | [], _ => (1 <=? has_count d s) && (ms <=? has_count d s)
+  | _, [] => true
+  | _, _ => ms <=? has_count d s
+  end.
+Proof.
+  intros m s n ms d. unfold flatq. cbn [sem].
+  assert (Hall : forall l, (fix all (l0 : list query) : bool := match l0 with [] => true | x :: r => sem x d && all r end) (map tq l) = has_all d l).
+  { induction l as [| a l IH]; [reflexivity|]. cbn [map]. rewrite IH. reflexivity. }
+  assert (Hany : forall l, (fix any (l0 : list query) : bool := match l0 with [] => false | x :: r => sem x d || any r end) (map tq l) = has_any d l).
+  { induction l as [| a l IH]; [reflexivity|]. cbn [map]. rewrite IH. reflexivity. }
+  assert (Hcnt : forall l, (fix count (l0 : list query) : Z := match l0 with [] => 0 | x :: r => (if sem x d then 1 else 0) + count r end) (map tq l) = has_count d l).
+  { induction l as [| a l IH]; [reflexivity|]. cbn [map]. rewrite IH. reflexivity. }
+  rewrite Hall, Hany, Hcnt.
+  destruct m as [| m0 mr]; destruct s as [| s0 sr]; destruct n as [| n0 nr]; reflexivity.
+Qed.
+
+(* ---------- the denotation of the compiled boolean = sem ---------- *)
+
+Definition flat_Sm sn (musts : list (Z * list Z)) : option (Z -> bool) :=
+  match musts with [] => None | _ => Some (conj_S (tdenots sn musts)) end.
+Definition flat_Ss sn (shoulds : list (Z * list Z)) (ms : Z) : option (Z -> bool) :=
+  match shoulds with [] => None | _ => Some (disj_S (tdenots sn shoulds) ms) end.
+Definition flat_Sn sn (nots : list (Z * list Z)) : option (Z -> bool) :=
+  match nots with [] => None | _ => Some (disj_S (tdenots sn nots) 1) end.
+
+Definition flat_S sn musts shoulds nots ms : Z -> bool :=
+  bool_S (flat_Sm sn musts) (flat_Ss sn shoulds ms) (flat_Sn sn nots) ms.
+
+Lemma disj_S_live : forall sn l k x d, In (x, d) (live_docs sn) ->
+  disj_S (tdenots sn l) k x = (Z.max k 1 <=? has_count d l).
+Proof. intros. unfold disj_S. rewrite (count_true_tdenots sn l x d H). reflexivity. Qed.
+
+Lemma flat_S_live : forall sn musts shoulds nots ms x d,
+  In (x, d) (live_docs sn) -> 0 <= ms -> (musts <> [] \/ shoulds <> []) ->
+  flat_S sn musts shoulds nots ms x = sem (flatq musts shoulds nots ms) d.
+Proof.
+  intros sn musts shoulds nots ms x d Hin Hms Hne. rewrite sem_flat. unfold flat_S, bool_S, should_required.
+  assert (Hn : opt_S (flat_Sn sn nots) false x = has_any d nots).
+  { unfold flat_Sn. destruct nots as [| n0 nr]; [reflexivity|]. unfold opt_S.
+    rewrite (disj_S_live sn (n0 :: nr) 1 x d Hin), has_any_count. reflexivity. }
+  rewrite Hn. pose proof (has_count_nonneg d shoulds) as Hc.
+  destruct musts as [| m0 mr].
+  - destruct shoulds as [| s0 sr]; [destruct Hne; congruence|].
+    cbn [flat_Sm flat_Ss]. rewrite (disj_S_live sn _ ms x d Hin). cbn [has_all forallb andb].
+    destruct (Z.max ms 1 <=? has_count d (s0 :: sr)) eqn:E1.
+    + apply Z.leb_le in E1. assert (E2 : (1 <=? has_count d (s0 :: sr)) = true) by (apply Z.leb_le; lia).
+      assert (E3 : (ms <=? has_count d (s0 :: sr)) = true) by (apply Z.leb_le; lia). rewrite E2, E3.
+      destruct (has_any d nots); reflexivity.
+    + apply Z.leb_gt in E1.
+      destruct (1 <=? has_count d (s0 :: sr)) eqn:E2; destruct (ms <=? has_count d (s0 :: sr)) eqn:E3;
+        try (apply Z.leb_le in E2); try (apply Z.leb_le in E3); try lia; destruct (has_any d nots); reflexivity.
+  - cbn [flat_Sm]. rewrite (conj_S_live sn (m0 :: mr) x d Hin) by discriminate.
+    destruct shoulds as [| s0 sr]; cbn [flat_Ss].
+    + destruct (has_all d (m0 :: mr)); destruct (has_any d nots); reflexivity.
+    + destruct (ms =? 0) eqn:E0; cbn [negb opt_S].
+      * apply Z.eqb_eq in E0. subst ms. assert (E3 : (0 <=? has_count d (s0 :: sr)) = true) by (apply Z.leb_le; lia).
+        rewrite E3. reflexivity.
+      * apply Z.eqb_neq in E0. rewrite (disj_S_live sn _ ms x d Hin).
+        replace (Z.max ms 1) with ms by lia. reflexivity.
+Qed.
+
+Lemma flat_S_not_live : forall sn musts shoulds nots ms x,
+  (forall d, ~ In (x, d) (live_docs sn)) -> (musts <> [] \/ shoulds <> []) ->
+  flat_S sn musts shoulds nots ms x = false.
+Proof.
+  intros sn musts shoulds nots ms x Hnl Hne. apply bool_S_prim. unfold prim_S.
+  destruct musts as [| m0 mr].
+  - destruct shoulds as [| s0 sr]; [destruct Hne; congruence|]. cbn [flat_Sm flat_Ss opt_S].
+    unfold disj_S. assert (E : forall l0, count_true (tdenots sn l0) x = O).
+    { unfold count_true, tdenots. induction l0 as [| b l IH]; simpl; [reflexivity|].
+      rewrite (term_S_not_live sn _ _ x Hnl). exact IH. }
+    rewrite E. apply Z.leb_gt. simpl. lia.
+  - cbn [flat_Sm]. unfold conj_S, tdenots. cbn [map forallb]. rewrite (term_S_not_live sn _ _ x Hnl). reflexivity.
+Qed.
+
+Lemma incr_map_fst_filter : forall (f : Z * doc -> bool) l, incr (map fst l) -> incr (map fst (filter f l)).
+Proof.
+  intros f l. induction l as [| a l IH]; intros Hi; [exact I|].
+  pose proof (incr_tail _ _ Hi) as Ht. cbn [filter]. destruct (f a); [|apply IH; exact Ht].
+  cbn [map]. apply incr_cons; [apply IH; exact Ht|]. intros b Hb. apply in_map_iff in Hb. destruct Hb as [p [<- Hp]].
+  apply filter_In in Hp. destruct Hp as [Hp _]. apply (incr_head_min _ _ Hi). apply in_map. exact Hp.
+Qed.
+
+Lemma sem_numbers_members : forall sn musts shoulds nots ms,
+  0 <= ms -> (musts <> [] \/ shoulds <> []) ->
+  members sn (flat_Sm sn musts) (flat_Ss sn shoulds ms) (flat_Sn sn nots) ms 0 = sem_numbers (flatq musts shoulds nots ms) sn.
+Proof.
+  intros sn musts shoulds nots ms Hms Hne. unfold members, sem_numbers.
+  apply incr_ext_eq.
+  - apply incr_filter. apply zseq_incr.
+  - apply incr_map_fst_filter. apply live_docs_incr.
+  - intros x. rewrite filter_In, zseq_In, in_map_iff. fold (flat_S sn musts shoulds nots ms). split.
+    + intros [Hr HS].
+      destruct (in_dec Z.eq_dec x (map fst (live_docs sn))) as [Hin|Hnin].
+      * apply in_map_iff in Hin. destruct Hin as [[n d] [E Hin]]. simpl in E. subst n.
+        exists (x, d). split; [reflexivity|]. apply filter_In. split; [exact Hin|]. cbn [snd].
+        rewrite <- (flat_S_live sn musts shoulds nots ms x d Hin Hms Hne). exact HS.
+      * rewrite flat_S_not_live in HS; [discriminate| |exact Hne].
+        intros d Hd. apply Hnin. apply in_map_iff. exists (x, d). split; [reflexivity|exact Hd].
+    + intros [[n d] [E Hp]]. simpl in E. subst n. apply filter_In in Hp. destruct Hp as [Hin Hs]. cbn [snd] in Hs.
+      split.
+      * pose proof (proj2 (live_from_incr sn 0) x) as Hr. unfold live_docs in Hin.
+        specialize (Hr ltac:(apply in_map_iff; exists (x, d); split; [reflexivity|exact Hin])).
+        pose proof (total_docs_nonneg sn). lia.
+      * rewrite (flat_S_live sn musts shoulds nots ms x d Hin Hms Hne). exact Hs.
+Qed.
